@@ -424,17 +424,21 @@ func runGenerators(ps *PropSpec, tmp string) error {
 	for _, g := range ps.Gen {
 		outDir := filepath.Join(tmp, "gen", g.PkgDir)
 		os.MkdirAll(outDir, 0755)
+		yangDir := filepath.Join(verifDir, "gen", "yang")
+		if g.YangDir != "" {
+			yangDir = filepath.Join(verifDir, "gen", g.YangDir)
+		}
 		var yangs []string
 		for _, y := range g.Yang {
-			yangs = append(yangs, filepath.Join(verifDir, "gen", "yang", y))
+			yangs = append(yangs, filepath.Join(yangDir, y))
 		}
 		var args []string
 		switch g.Kind {
 		case "", "go":
-			args = append([]string{"run", "./generator", "-path=" + filepath.Join(verifDir, "gen", "yang"),
+			args = append([]string{"run", "./generator", "-path=" + yangDir,
 				"-output_file=" + filepath.Join(outDir, "zz_verif_gen.go"), "-package_name=" + g.Package}, g.Args...)
 		case "gopath": // GoStructs plus path structs in one package
-			args = append([]string{"run", "./generator", "-path=" + filepath.Join(verifDir, "gen", "yang"),
+			args = append([]string{"run", "./generator", "-path=" + yangDir,
 				"-output_file=" + filepath.Join(outDir, "zz_verif_gen.go"), "-package_name=" + g.Package,
 				"-generate_path_structs", "-path_structs_output_file=" + filepath.Join(outDir, "zz_verif_gen_path.go")}, g.Args...)
 		default:
